@@ -23,7 +23,7 @@ NOTES = {
 }
 # what is tied to the property by translation of the current source text (tools/py2coq*.py) in addition to the correspondence run
 TIED = {
- "C01": "expand_source_SCCs.py (expand_source_SCCs and attach_scc_subdiagram), expand_source_blocks.py, the public methods expand_scc / expand_block / build",
+ "C01": "expand_source_SCCs.py (expand_source_SCCs and attach_scc_subdiagram), expand_source_blocks.py, the public methods expand_scc / expand_block / build, attractor_symbolic.compute_attractors_symbolic",
  "C02": "SuccessionDiagram.__init__, _expand_one_node, _ensure_node, _ensure_edge, _update_node_depth, node_successors, expand_bfs.py, expand_dfs.py and the public wrappers",
  "C03": "expand_bfs.py, expand_dfs.py, expand_minimal_spaces.py, expand_attractor_seeds.py, expand_source_SCCs.py, expand_source_blocks.py, the public wrappers and minimal_trap_spaces()",
  "C04": "expand_bfs.py, expand_dfs.py, _expand_one_node, _ensure_node, node_successors",
@@ -34,6 +34,7 @@ TIED = {
  "C09": "trappist_core._clingo_model_to_space / _clingo_model_to_fixed_point (polarity of the answer-set readers)",
  "C10": "petri_net_translation.variable_to_place / place_to_variable",
  "C11": "space_utils.percolate_space_strict / percolation_conflicts, drivers.find_single_node_LDOIs / find_single_drivers",
+ "C12": "attractor_symbolic.compute_attractors_symbolic (the candidate filter loop)",
  "C13": "the loops of expand_bfs.py, expand_dfs.py, expand_to_target.py, expand_minimal_spaces.py, expand_attractor_seeds.py, expand_source_SCCs.py, expand_source_blocks.py",
  "C14": "_expand_one_node, skip_to_minimal, skip_remaining, reclaim_node_data, expand_source_SCCs.attach_scc_subdiagram (cache clearing), the cache writes of expand_source_blocks.py",
  "C15": "the limit handling of expand_bfs.py, expand_dfs.py, expand_to_target.py, expand_minimal_spaces.py, expand_attractor_seeds.py, expand_source_blocks.py",
